@@ -50,6 +50,55 @@ def generate(rng, tier):
         xs = gen.axis_i(rng, n)
         for q in gen.queries_i(rng, xs, 10, ext=True):
             cases.append(case_i(xs, q, rng.choice(gen.LAYS_1D)))
+    # extreme magnitudes: the span of the axis is close to the largest finite value of the element type (but finite), so anything
+    # computed as (q - first) * (n - 1), q * n, first + last ... overflows, while span, offsets and their quotients do not
+    for _ in range(reps):
+        n = rng.choice([3, 4, 5, 7, 10, 17])
+        big = 1.7976931348623157e308
+        a, b = -rng.uniform(0.2, 0.45) * big, rng.uniform(0.2, 0.45) * big
+        cuts = sorted(rng.uniform(0.02, 0.98) for _ in range(n - 2))
+        xs = [a] + [a + (b - a) * c for c in cuts] + [b]
+        if all(x < y for x, y in zip(xs, xs[1:])):
+            for q in gen.queries_f(rng, xs, 8):
+                cases.append(case_f(xs, q, rng.choice(gen.LAYS_1D)))
+        a, b = -rng.randint(2 ** 61, 2 ** 62 - 1), rng.randint(2 ** 61, 2 ** 62 - 1)
+        xi = sorted({a, b} | {rng.randint(a + 1, b - 1) for _ in range(n - 2)})
+        for q in [xi[0], xi[-1]] + [rng.randint(a, b) for _ in range(6)] + [x + d for x in xi[1:-1] for d in (-1, 0, 1)][:9]:
+            cases.append(case_i(xi, q, rng.choice(gen.LAYS_1D)))
+    # consecutive lookups through one interpolator (`Interp1D::get_index_left_of`, `Interp2D::get_index_left_of`): each answer is the
+    # bracket of its own query, whatever was asked before (sweeps through the knots, repeats, jumps)
+    for _ in range(reps):
+        S = rng.choice(["Q", "F", "I"])
+        two = rng.random() < 0.3
+        def axis(n):
+            return gen.axis_q(rng, n) if S == "Q" else gen.axis_f(rng, n, rng.choice(["random", "uniform", "geometric", "unit"])) if S == "F" else gen.axis_i(rng, n)
+        def sweep(ax):
+            qs = []
+            for a, b in zip(ax, ax[1:]):
+                mid = (a + b) / 2 if S != "I" else (a + b) // 2
+                qs += [a, mid, b] if rng.random() < 0.7 else [mid, b, a]
+            if rng.random() < 0.4:
+                qs = qs[::-1]
+            if rng.random() < 0.4:
+                rng.shuffle(qs)
+            span = ax[-1] - ax[0]
+            return qs + [ax[0] - span, ax[-1], ax[-1] + span, ax[0], ax[1]]
+        n = rng.choice([3, 4, 5, 8])
+        xs = axis(n)
+        if two:
+            ys = axis(rng.choice([2, 3, 5]))
+            qx, qy = sweep(xs), sweep(ys)
+            m = min(len(qx), len(qy), 16)
+            rng.shuffle(qy)
+            flat = [0] * (len(xs) * len(ys))
+            z = [Fr(0)] * len(flat) if S == "Q" else [0.0] * len(flat) if S == "F" else flat
+            line = gen.i2_line(S, xs, ys, [len(xs), len(ys)], z, True, gen.e_idx(S, *[v for p in zip(qx[:m], qy[:m]) for v in p]))
+            cases.append({"line": line, "meta": {"seq": [(xs, qx[:m]), (ys, qy[:m])]}})
+        else:
+            qs = sweep(xs)[:24]
+            z = [Fr(i) for i in range(n)] if S == "Q" else [float(i) for i in range(n)] if S == "F" else list(range(n))
+            line = gen.i1_line(S, xs, [n], z, ("lin", True), gen.e_idx(S, *qs))
+            cases.append({"line": line, "meta": {"seq": [(xs, qs)]}})
     if tier == "thorough":
         for n in (500, 2000):
             for kind in ("uniform", "geometric", "ulps", "log"):
@@ -78,11 +127,26 @@ def generate(rng, tier):
 
 
 def nontrivial(case, res):
+    if "seq" in case["meta"]:
+        return True
     xs, q = case["meta"]["xs"], case["meta"]["q"]
     return xs[0] < q < xs[-1]
 
 
 def oracle(case, res):
+    if "seq" in case["meta"]:
+        seq = case["meta"]["seq"]
+        toks = res.raw.split()
+        if not toks or toks[0] != "idxs":
+            return f"consecutive lookups must all return an index, got {res.raw[:80]}"
+        got = [int(t) for t in toks[2:]]
+        want = []
+        for k in range(len(seq[0][1])):
+            for ax, qs in seq:
+                want.append(lin_bracket(ax, qs[k]))
+        if got != want:
+            return f"consecutive lookups on one interpolator must each return the bracket of their own query: {want}, got {got}"
+        return None
     xs, q = case["meta"]["xs"], case["meta"]["q"]
     if isinstance(q, float) and math.isnan(q):
         return None
